@@ -42,7 +42,13 @@ class Ctx:
             path, th, secs = extract.ensure_facts(cfg, self.repo)
             self.extract_s += secs
             self.tree_hash = th
-            f = factsmod.Facts(path)
+            try:
+                f = factsmod.Facts(path)
+            except FileNotFoundError:
+                # pruned by a concurrent process between the lookup and the read: extract again
+                path, th, secs = extract.ensure_facts(cfg, self.repo)
+                self.extract_s += secs
+                f = factsmod.Facts(path)
             self._facts[cfg] = f
             self.stats["configs"].append({"config": cfg, "bodies": f.meta["bodies"], "cargo": " ".join(extract.CONFIGS[cfg][0]) + ((" [RUSTFLAGS " + extract.CONFIGS[cfg][2] + "]") if len(extract.CONFIGS[cfg]) > 2 else "")})
         return self._facts[cfg]
